@@ -1,4 +1,5 @@
 /- C04: second HCM pass = steady-state hystereses of the repeated sequence. -/
 import Model.HCMSpec
+import Proofs.C04Basic
 import Proofs.C04Periodic
 import Proofs.C04Insert
